@@ -1,6 +1,7 @@
 import Casket.Proofs.AutoHTTPS
 import Casket.Proofs.AutoHTTPSRedirect
 import Casket.Proofs.AutoHTTPSSites
+import Casket.Proofs.AutoHTTPSAddr
 /-
 C15 — Automatic HTTPS is applied exactly to qualifying sites, with redirects.
 
@@ -221,5 +222,48 @@ example : hostHeaderInScope b!"[::1]:80" = true ∧ requestURI b!"/a%2Fb?x=1" = 
 /-- The port captured for a site (default flags) is what `redirPlaintextHost` stores. -/
 theorem C15_captured_port (p : Bytes) : (redirPlaintextHost { port := p }).redir = some (capturedPort p) := by
   unfold redirPlaintextHost; simp
+
+/-! ### site addresses: the scheme/port table, and the specification's reader -/
+
+/-- THE SCHEME/PORT TABLE of standardizeAddress, for every well-formed `[scheme://]name[:port]` (scheme: letters in any case;
+name: letters, digits, `- . _ *`; port: digits): the text survives the `:http`/`:https` replacement and the `//` normalisation,
+net/url.Parse splits it as expected, and the result is — port: the written one, else 80/443 for http/https, else none;
+`http`+443 and `https`+80 are refused; scheme: the written one (lower-cased), else http/https for port 80/443. -/
+theorem C15_standardize_table (a : AddrParts) (hok : a.ok) : standardizeAddress (composeAddr a) = expectedAddr a :=
+  standardize_compose a hok
+
+example : AddrParts.ok { scheme := b!"HTTP", host := b!"Example.COM", port := some b!"8080" } := by
+  refine ⟨by decide, by decide, ?_⟩
+  intro p hp; cases hp; exact ⟨by decide, by decide⟩
+
+example : (standardizeAddress b!"example.com:80").toOption.map (fun r => (r.scheme, r.host, r.port)) = some (b!"http", b!"example.com", b!"80") ∧
+    (standardizeAddress b!"https://example.com:80").toOption.isNone = true ∧
+    (standardizeAddress b!"https://example.com").toOption.map (·.port) = some b!"443" := by decide
+
+/-- The specification's own reader of an address text (`readAddr`, used by the judge of c15.sites) gives the same table. -/
+theorem C15_spec_reader_table (a : AddrParts) (hok : a.ok) :
+    readAddr (composeAddr a) =
+      (tableScheme (toLower a.scheme) (tablePort (toLower a.scheme) a.port), toLower a.host, tablePort (toLower a.scheme) a.port) :=
+  readAddr_compose a hok
+
+/-- …so, for every well-formed address whose host is not an IP literal, scheme, host and port as the model's
+standardizeAddress + Normalize leave them are what the judge reads from the text: the judge's "declared as plain HTTP",
+its host class and the model's declared site talk about the same site. -/
+theorem C15_spec_reader_agrees (a : AddrParts) (hok : a.ok) (hnip : parseIP a.host = none) (r : Address)
+    (h : standardizeAddress (composeAddr a) = .ok r) :
+    (r.normalize.scheme, r.normalize.host, r.normalize.port) = readAddr (composeAddr a) :=
+  reader_agrees a hok hnip r h
+
+/-- The host Normalize leaves for such an address is in the scope of the qualification theorem: lower case, no port. -/
+theorem C15_normalized_host_in_scope (a : AddrParts) (hok : a.ok) (hnip : parseIP a.host = none) (r : Address)
+    (h : standardizeAddress (composeAddr a) = .ok r) : hostInScope r.normalize.host = true := by
+  have := reader_agrees a hok hnip r h
+  rw [readAddr_compose a hok] at this
+  have hh : r.normalize.host = toLower a.host := by injection this with _ h2; injection h2
+  rw [hh]
+  unfold hostInScope
+  rw [toLower_idem]
+  have hno := (not_mem_name (toLower a.host) (lower_ok a hok).2.1).1
+  simp [splitHostPort_none_of_no_colon _ hno]
 
 end Casket.Props.C15
